@@ -16,8 +16,12 @@ Definition write_ok (w : world) (x : write * onfail) : Prop :=
   | WTrialCreate n => exists s, w_sug w = Some s /\ In n (ss_names (s_st s))
   | WTrialStatus n cs o ct rv =>
       exists t, find_trial n (w_trials w) = Some t /\ (rv <= t_rv t)%nat /\
-                (rv = t_rv t -> forall k, In k terminal_types -> t_is t k = true -> has_cond cs k = true)
-  | WExpStatus st rv => counts_nonneg (es_counts st)
+                (rv = t_rv t -> (forall k, In k terminal_types -> t_is t k = true -> has_cond cs k = true) /\
+                                (tgood t -> good_conds cs o))
+  | WExpStatus st rv =>
+      counts_nonneg (es_counts st) /\
+      exists e, w_exp w = Some e /\ (rv <= e_rv e)%nat /\
+                (rv = e_rv e -> e_completed (e_st e) = true -> restart_enabled_e (w_cfg w) e = false -> verdict_same (e_st e) st)
   | _ => True
   end.
 
@@ -39,7 +43,8 @@ Record InvS (w : world) : Prop := {
                       end
           end;
   i_bud : 0 <= g_maxreq w /\ g_maxreq w <= completed_n (w_trials w) + c_par (w_cfg w) /\
-          forall e m, w_exp w = Some e -> e_max e = Some m -> g_maxreq w <= m }.
+          forall e m, w_exp w = Some e -> e_max e = Some m -> g_maxreq w <= m;
+  i_tgood : Forall tgood (w_trials w) }.
 
 Definition InvP (w : world) : Prop :=
   Forall (write_ok w) (p_exp w) /\ Forall (write_ok w) (p_sug w) /\ Forall (write_ok w) (p_trial w).
@@ -96,6 +101,7 @@ Qed.
 Record evolves (w w' : world) : Prop := {
   ev_cfg : w_cfg w' = w_cfg w;
   ev_exp : forall e', w_exp w' = Some e' -> exists e, w_exp w = Some e /\ ele e e';
+  ev_exp_fwd : forall e, w_exp w = Some e -> exists e', w_exp w' = Some e' /\ ele e e';
   ev_sug : forall s, w_sug w = Some s -> exists s', w_sug w' = Some s' /\ sle s s';
   ev_trials : tlag (w_trials w) (w_trials w');
   ev_maxreq : g_maxreq w <= g_maxreq w' }.
@@ -103,6 +109,7 @@ Record evolves (w w' : world) : Prop := {
 Lemma evolves_refl w : evolves w w.
 Proof.
   constructor; auto using tlag_refl; try lia.
+  - intros e H. exists e. auto using ele_refl.
   - intros e H. exists e. auto using ele_refl.
   - intros s H. exists s. auto using sle_refl.
 Qed.
@@ -118,6 +125,11 @@ Qed.
 Lemma write_ok_mono w w' x : evolves w w' -> write_ok w x -> write_ok w' x.
 Proof.
   intros E. unfold write_ok. destruct (fst x); auto.
+  - (* WExpStatus *)
+    intros (NN&e&He&R&P). split; [exact NN|].
+    destruct (ev_exp_fwd _ _ E _ He) as (e'&He'&(R'&E'&_)). exists e'. split; [exact He'|]. split; [lia|].
+    intro Q. assert (Q1 : rv = e_rv e) by lia. assert (Q2 : e_rv e = e_rv e') by lia.
+    rewrite <- (E' Q2), (ev_cfg _ _ E). auto.
   - apply req_ok_mono; assumption.
   - apply req_ok_mono; assumption.
   - intros (C&G&s&Hs&R&P). split; [exact C|]. split; [pose proof (ev_maxreq _ _ E); lia|].
